@@ -127,11 +127,18 @@ type workerEnv struct {
 	mode     string
 	ssidName map[string]string
 	deadPeer bool
+	readRate int // variant "-throttled": the per-connection read rate the broker is configured with
 }
 
-func newWorkerEnv(mode string) *workerEnv {
-	w := &workerEnv{mode: mode, ssidName: map[string]string{}}
-	w.env = brokerx.MustNew(brokerx.Options{Matcher: mode})
+// throttledRate: low enough that the probes of every state run a connection over its rate (the bucket holds 20
+// packets and refills at 20/s; a state sends 30 and more), high enough that the throttling costs a second or so.
+const throttledRate = 20
+
+func newWorkerEnv(mode string) *workerEnv { return newWorkerEnvRate(mode, 0) }
+
+func newWorkerEnvRate(mode string, readRate int) *workerEnv {
+	w := &workerEnv{mode: mode, ssidName: map[string]string{}, readRate: readRate}
+	w.env = brokerx.MustNew(brokerx.Options{Matcher: mode, ReadRate: readRate})
 	w.rw = w.env.MustKey("#/", security.AllowRead|security.AllowWrite)
 	w.wo = w.env.MustKey("#/", security.AllowWrite)
 	w.ro = w.env.MustKey("#/", security.AllowRead)
@@ -524,7 +531,7 @@ func (in *inst) Close() {
 		// something was left behind (C08's business): do not let it leak into the next path
 		in.w.env.Close()
 		dp := in.w.deadPeer
-		*in.w = *newWorkerEnv(in.w.mode)
+		*in.w = *newWorkerEnvRate(in.w.mode, in.w.readRate)
 		in.w.deadPeer = dp
 	}
 }
@@ -545,7 +552,11 @@ func searchOps(c *core.Ctx, mode string, depth int, ops []opDesc, variant string
 	spec := &xstate.Spec{Name: "c02-" + mode, Alphabet: names, Depth: depth, Workers: n, Deadline: c.Deadline,
 		New: func(w int) xstate.Instance {
 			if envs[w] == nil {
-				envs[w] = newWorkerEnv(mode)
+				rate := 0
+				if variant == "-throttled" {
+					rate = throttledRate
+				}
+				envs[w] = newWorkerEnvRate(mode, rate)
 				envs[w].deadPeer = variant == "-deadpeer"
 			}
 			return envs[w].newInst(ops)
@@ -585,11 +596,13 @@ func run(c *core.Ctx) {
 	}
 	searchOps(c, "", depth+3, collisionAlphabet(), "-collisions")
 	searchOps(c, "", depth-1, deadPeerAlphabet(), "-deadpeer")
+	searchOps(c, "", depth-2, deadPeerAlphabet(), "-throttled")
 	search(c, "mqtt", depth-1)
 	search(c, "", depth)
 	c.Set("alphabet", len(alphabet("")))
 	c.Set("probes_per_state", len(probes)*4+3)
 	c.Assume("fault variant: one extra subscriber (a/, a/b/, b/) whose socket fails every write while staying open; only the two healthy clients are observed")
+	c.Assume("throttled variant: the broker is configured with limit.readRate = 20 packets/s per connection; the probes of every state exceed it, so every state is reached and probed through the throttle")
 	c.Assume("clients act one request at a time (histories, not schedules); each request is acknowledged before the next is sent")
 	c.Assume("murmur collisions between different level names are outside the alphabet")
 }
@@ -606,9 +619,16 @@ func replay(c *core.Ctx, raw json.RawMessage) {
 		runInterleaved(c, ic)
 		return
 	}
-	w := newWorkerEnv(cs.Mode)
+	rate := 0
+	if cs.Variant == "-throttled" {
+		rate = throttledRate
+	}
+	w := newWorkerEnvRate(cs.Mode, rate)
 	defer w.env.Close()
 	al := alphabet(cs.Mode)
+	if cs.Variant == "-throttled" {
+		al = deadPeerAlphabet()
+	}
 	if cs.Variant == "-collisions" {
 		al = collisionAlphabet()
 	}
